@@ -42,6 +42,25 @@ def gen(tier, rng):
                                                 dst_lay={"k": "typed", "guard": 1} if typed else {"k": "slice", "guard": 1},
                                                 api="typed" if typed else "dyn", log=("src", "dst"),
                                                 chk=("pipeline", "ret_ok", "near", "outside", "srcsame")))
+    # whole-number scale factors with every quarter-pixel crop origin (an integer fast path must not drop the fraction)
+    for fx in (1, 2, 3, 4, 5, 7):
+        for dw in (1, 2, 3):
+            for ax in range(4):
+                for ay in range(4):
+                    n += 1
+                    fy = rz.pick(n, 134, [1, 2, 3, 5])
+                    dh = rz.pick(n, 135, [1, 2, 4])
+                    ox, oy = rz.pick(n, 136, [0, 1, 2]), rz.pick(n, 137, [0, 1])
+                    sw, sh = fx * dw + ox + 1, fy * dh + oy + 1
+                    box = (Q * ox + ax, Q * oy + ay, Q * fx * dw, Q * fy * dh)
+                    pt = rz.pick(n, 138, rz.ALL_PT)
+                    lay = rz.pick(n, 139, [{"k": "image_ref", "guard": 1}, {"k": "typed_ref", "guard": 1}, {"k": "crop_ref", "pad": [1, 1, 0, 2], "guard": 1}])
+                    typed = lay["k"].startswith("typed")
+                    cases.append(rz.resize_case(pt, sw, sh, dw, dh, alg="nearest", alpha=False, box=box, Q=Q, cpu=rz.pick(n, 130, rz.CPUS),
+                                                src_c={"g": "data", "v": tags(pt, sw, sh, rng)}, src_lay=lay,
+                                                dst_lay={"k": "typed", "guard": 1} if typed else {"k": "slice", "guard": 1},
+                                                api="typed" if typed else "dyn", log=("src", "dst"),
+                                                chk=("pipeline", "ret_ok", "near", "outside", "srcsame")))
     if tier != "quick":
         for i in range(6000):
             kw = rz.random_resize_kw(rng, algs=[("nearest", 1)], maxdim=24)
